@@ -18,21 +18,21 @@ Definition opt_is_exception (o : option exc) : bool := match o with None => true
 Definition all_opt_canon : list (option exc) := None :: map Some all_canon_excs.
 
 Lemma all_positions_complete : forall p, In p all_positions.
-Proof. destruct p; simpl; tauto. Qed.
+Proof. destruct p as [| | | | | | | | | | |d|]; try (simpl; tauto); destruct d; simpl; tauto. Qed.
 Lemma all_upos_complete : forall p, In p all_upos.
-Proof. destruct p; simpl; tauto. Qed.
+Proof. destruct p as [| | | | |d]; try (simpl; tauto); destruct d; simpl; tauto. Qed.
 Lemma all_leaves_complete : forall k, In k all_leaves.
 Proof. destruct k; simpl; tauto. Qed.
-Lemma bools_complete : forall b, In b [true; false].
-Proof. destruct b; simpl; tauto. Qed.
+Lemma flavours_complete : forall f, In f all_flavours.
+Proof. destruct f; simpl; tauto. Qed.
 
 (* ---- TCP ---- *)
-Definition chk_tcp_raises (tls : bool) (p : position) (e1 : exc) (e2 : option exc) : bool :=
+Definition chk_tcp_raises (tls : flavour) (p : position) (e1 : exc) (e2 : option exc) : bool :=
   implb (exc_is_exception e1 && opt_is_exception e2) (is_none (o_raises (tcp_client_task tls p e1 e2))).
 
 Lemma tcp_raises_table :
   forallb (fun tls => forallb (fun p => forallb (fun e1 => forallb (fun e2 => chk_tcp_raises tls p e1 e2)
-     all_opt_canon) all_canon_excs) all_positions) [true; false] = true.
+     all_opt_canon) all_canon_excs) all_positions) all_flavours = true.
 Proof. vm_compute. reflexivity. Qed.
 
 Lemma tcp_never_raises_canon :
@@ -43,7 +43,7 @@ Lemma tcp_never_raises_canon :
 Proof.
   intros tls p e1 e2 H1 H2 X1 X2.
   pose proof tcp_raises_table as T.
-  rewrite forallb_forall in T. specialize (T tls (bools_complete tls)).
+  rewrite forallb_forall in T. specialize (T tls (flavours_complete tls)).
   rewrite forallb_forall in T. specialize (T p (all_positions_complete p)).
   rewrite forallb_forall in T. specialize (T e1 H1).
   rewrite forallb_forall in T. specialize (T e2 H2).
@@ -62,7 +62,8 @@ Lemma tcp_closed_always : forall tls p e1 e2,
   o_closed (tcp_client_task tls p e1 e2) = true.
 Proof.
   intros. unfold tcp_client_task. destruct p; try apply tcp_closed_always_main;
-    destruct receiver_next_protected; solve [apply tcp_closed_always_main | reflexivity].
+    try (destruct (delay_error d) as [k|]; [destruct (leaf_matches tcp_wait_clauses k)|]);
+    try destruct receiver_next_protected; solve [apply tcp_closed_always_main | reflexivity].
 Qed.
 
 Lemma tcp_disc_iff_connected_main : forall tls p e1 e2,
@@ -77,7 +78,8 @@ Lemma tcp_disc_iff_connected : forall tls p e1 e2,
   o_disc_called (tcp_client_task tls p e1 e2) = pos_connected p.
 Proof.
   intros. unfold tcp_client_task. destruct p; try apply tcp_disc_iff_connected_main;
-    destruct receiver_next_protected; solve [apply tcp_disc_iff_connected_main | reflexivity].
+    try (destruct (delay_error d) as [k|]; [destruct (leaf_matches tcp_wait_clauses k)|]);
+    try destruct receiver_next_protected; solve [apply tcp_disc_iff_connected_main | reflexivity].
 Qed.
 
 Lemma tcp_hook4_iff_connected_main : forall tls p e1 e2,
@@ -85,22 +87,23 @@ Lemma tcp_hook4_iff_connected_main : forall tls p e1 e2,
 Proof.
   intros. unfold tcp_client_task_main.
   repeat match goal with |- context [let '(_, _) := ?x in _] => destruct x end.
-  destruct p; reflexivity.
+  destruct p; try reflexivity; destruct d; reflexivity.
 Qed.
 
 Lemma tcp_hook4_iff_connected : forall tls p e1 e2,
   existsb (Z.eqb 4) (o_hooks (tcp_client_task tls p e1 e2)) = pos_connected p.
 Proof.
   intros. unfold tcp_client_task. destruct p; try apply tcp_hook4_iff_connected_main;
-    destruct receiver_next_protected; solve [apply tcp_hook4_iff_connected_main | reflexivity].
+    try (destruct (delay_error d) as [k|]; [destruct (leaf_matches tcp_wait_clauses k)|]);
+    try destruct receiver_next_protected; solve [apply tcp_hook4_iff_connected_main | reflexivity].
 Qed.
 
 (* faults raised by an exit callback registered after the suppressor (the TLS close handshake) *)
 Definition chk_exit_cb (e : exc) : bool :=
-  implb (exc_is_exception e) (is_none (o_raises (tcp_exit_callback_fault true SAclosing e))
-                              && is_none (o_raises (tcp_exit_callback_fault false SLinger e))
-                              && is_none (o_raises (tcp_exit_callback_fault true SOnDisconnect e))
-                              && is_none (o_raises (tcp_exit_callback_fault false SOnDisconnect e))).
+  implb (exc_is_exception e) (is_none (o_raises (tcp_exit_callback_fault FTlsCompat SAclosing e))
+                              && is_none (o_raises (tcp_exit_callback_fault FPlain SLinger e))
+                              && is_none (o_raises (tcp_exit_callback_fault FTlsCompat SOnDisconnect e))
+                              && is_none (o_raises (tcp_exit_callback_fault FPlain SOnDisconnect e))).
 Lemma exit_cb_table : forallb chk_exit_cb all_canon_excs = true.
 Proof. vm_compute. reflexivity. Qed.
 
@@ -147,11 +150,14 @@ Qed.
    record is consistent): mark_done sits in a finally clause *)
 Lemma udp_state_none_always : forall p e, u_state (udp_client_task p e) = CNone.
 Proof.
-  intros. unfold udp_client_task. destruct (match_run udp_aexit e) as [r lg]. destruct r; reflexivity.
+  intros. assert (M : forall p, u_state (udp_client_task_main p e) = CNone).
+  { intros q. unfold udp_client_task_main. destruct (match_run udp_aexit e) as [r lg]. destruct r; reflexivity. }
+  unfold udp_client_task. destruct p; try apply M;
+    try (destruct (delay_error d) as [k|]; [destruct (leaf_matches udp_wait_clauses k)|]); solve [apply M | reflexivity].
 Qed.
 
 (* ---- non-vacuity ---- *)
-Lemma fatal_escapes_tcp : o_raises (tcp_client_task false PHandleAfter (Naked KFatal) None) = Some (Naked KFatal).
+Lemma fatal_escapes_tcp : o_raises (tcp_client_task FPlain PHandleAfter (Naked KFatal) None) = Some (Naked KFatal).
 Proof. vm_compute. reflexivity. Qed.
 Lemma fatal_group_escapes_udp :
   u_raises (udp_client_task UAfter (Group [KGeneric; KFatal])) = Some (Group [KGeneric; KFatal]).
